@@ -164,7 +164,7 @@ Definition consistent (c : case) : bool :=
   let v := cs_verifier c in
   string_in (sk_alg (cs_key c)) (effective_algs (v_algs v))
   && (v_issuer v =s cs_issuer c) && (v_client v =s the_client c)
-  && Z.leb (- the_skew c * ns) (v_offset v)
+  && Z.leb 0 (v_offset v) && Z.leb (- the_skew c * ns) (v_offset v)
   && Z.leb (v_offset v + 2 * ns) ((cl_id_life (cs_client c) + the_skew c) * ns)
   && Z.leb (cs_now0 c) (cs_vnow c) && Z.leb (cs_vnow c) (cs_now0 c + ns)
   && match v_nonce v with None => true | Some n => n =s expected_nonce c end
@@ -185,7 +185,11 @@ Definition hash_binds (c : case) (alg preimage claim : string) : bool :=
 
 Definition id_token_ok (c : case) (r : response) (k : checks) (j : jws_desc) (ic : idclaims) : bool :=
   let rq := cs_req c in
-  let granted := restrict (the_drop_id c) (rq_scopes rq) in
+  (* scopes whose claims may be asserted: the request's, minus what the client
+     keeps out of ID tokens; in a token exchange the storage fills the claims
+     from the request itself (SetUserinfoFromTokenExchangeRequest) *)
+  let granted := if is_exchange (cs_flow c) then rq_scopes rq
+                 else restrict (the_drop_id c) (rq_scopes rq) in
   signed_by_current c j
   && (if consistent c then match k_id_verdict k with Some VAccept => true | _ => false end else true)
   && (i_iss ic =s cs_issuer c)
